@@ -35,3 +35,40 @@ Theorem C07_replay_checker :
            vyield t = w /\ vpost t = map fst reds /\ v = veval act t.
 Proof. exact Oracle.replay_sound. Qed.
 Print Assumptions C07_replay_checker.
+
+From YG Require Import LRBase TableCert Pipeline PipelineRun Drivers DriverSim Values.
+Close Scope Z_scope.
+Open Scope nat_scope.
+
+(* C07 for the parsers the pipeline emits (same statement as C06_pipeline): in every variant the value returned for an accepted input is the bottom-up evaluation of the semantic actions over the parse tree, for rules of every length *)
+Theorem C07_pipeline :
+  forall gi : ginfo,
+         (forall r d : nat, nth_error (rhs_of (gi_rules gi) r) d <> Some 0) ->
+         lhs_of (gi_rules gi) 0 = 0 ->
+         (forall r d : nat, nth_error (rhs_of (gi_rules gi) r) d <> Some eof) ->
+         (exists S : nat, rhs_of (gi_rules gi) 0 = [S]) ->
+         eof < gi_nsyms gi ->
+         (forall (r : nat) (R : rule), nth_error (gi_rules gi) r = Some R -> lhs R < gi_nsyms gi) ->
+         forall t : tables,
+         generate_tables gi = inr t ->
+         packed_agrees gi t ->
+         (forall q r : nat,
+          In (r, 0) (items (st (t_aut t) q)) ->
+          r <> 0 ->
+          r < length (gi_rules gi) ->
+          exists q' : nat,
+            gen_table (gi_rules gi) (t_aut t) (la_lookup (t_la t)) (sprec_of gi) (rprec_of gi) q
+              (lhs_of (gi_rules gi) r) = Shift q') ->
+         forall (v : variant) (act : semact) (fuel : nat) (inp : list tok),
+         (forall x : tok, In x inp -> fst x <> eof /\ fst x < gi_nsyms gi) ->
+         match parse v t (gi_rules gi) act fuel inp with
+         | RAcc value out =>
+             exists tr : vtree,
+               vvalid (gi_rules gi) tr /\
+               Some (vroot (gi_rules gi) tr) = hd_error (rhs_of (gi_rules gi) 0) /\
+               vyield tr = inp /\ vpost tr = out /\ value = veval act tr
+         | RCrash | RNil => False
+         | _ => True
+         end.
+Proof. exact PipelineRun.pipeline_values. Qed.
+Print Assumptions C07_pipeline.
